@@ -252,6 +252,40 @@ def check_render(res, d, req, fmt, case):
     res.count("rendered trees compared")
 
 
+UCL_LINES = ["MG,FREEZE,NAN,#MG,NAN,NAN,NAN,1.0,0.0,0.0,0,0", "#MG,THERM,NAN,MG,NAN,NAN,NAN,1.0,0.0,0.0,0,0", "#MG,DEUVCR,NAN,MG,NAN,NAN,NAN,1.0,0.0,0.0,0,0",
+             "H,H,NAN,H2,NAN,NAN,NAN,1.0e-17,0.5,0.0,10,41000", "C,O,NAN,CO,NAN,NAN,NAN,1.0e-10,0.0,0.0,10,41000", "CO,FREEZE,NAN,#CO,NAN,NAN,NAN,1.0,0.0,0.0,0,0",
+             "#CO,DESCR,NAN,CO,NAN,NAN,NAN,1.0,0.0,0.0,0,0"]
+
+
+def replaced_elements_request():
+    """upper-case element names renamed by the replacement table, with binding energies and yields for ice species
+    that hold a renamed element (the layout of the bundled 'cloud' example)"""
+    return {"name": "cloudlike", "description": "", "loads": [], "elements": ["E", "H", "HE", "C", "O", "MG"], "pseudo": ["CRP", "PHOTON", "CRPHOT"],
+            "replacement": {"E": "e", "HE": "He", "MG": "Mg"}, "grain": "GRAIN", "surface": "#", "bulk": "@", "allowed": [], "required": [],
+            "binding": {"#MG": 1234.5, "#CO": 1300.0}, "yield": {"#MG": 0.25}, "grain_model": "rr07x", "files": ["cloudlike.ucl"], "formats": ["uclchem"],
+            "heating": [], "cooling": [], "shielding": {}, "rate_mods": {}, "ode_mods": {}, "solver": "cvode", "device": "cpu", "method": "sparse"}
+
+
+def check_fixed_render(res, model, rng):
+    req = replaced_elements_request()
+    d = ol.scratch_dir()
+    o, rms, oms = opt_strings(req, rng)
+    case = {"kind": "c20-fixed-render", "options": o}
+    (d / req["files"][0]).write_text("\n".join(UCL_LINES) + "\n")
+    rc, out, err = run_init(d, o, rms, oms)
+    if rc != 0:
+        res.violation("oracle", f"`naunet init` rejects the cloud-like request: {err.strip().splitlines()[-1][:300] if err.strip() else rc}", case)
+    else:
+        got = toml_view(tomlkit.loads((d / "naunet_config.toml").read_text()))
+        for name, a, b in zip(FIELDS, got, requested_view(req)):
+            if a != b:
+                res.violation("oracle", f"requested {name} {b!r} but the configuration file holds {a!r}", case)
+                break
+        check_render(res, d, req, "uclchem", case)
+    res.case(("c20", "cloudlike"), nontrivial=True)
+    ol.cleanup_scratch()
+
+
 def findings(res, model):
     """the two documented separator behaviours, replayed on the implementation"""
     for kind, key, val, want in (("null", "name", "annulled", "annulled"), ("colon", None, "3:Tgas > 100.0 ? 1.0e-9 : 0.0", "Tgas > 100.0 ? 1.0e-9 : 0.0")):
@@ -285,6 +319,7 @@ def run(res, info):
     for i in range(n):
         req, fmt = gen_request(rng)
         check_request(res, model, req, fmt, rng, i, render=i < nr)
+    check_fixed_render(res, model, rng)
     findings(res, model)
     if model:
         model.close()
